@@ -30,9 +30,33 @@ CHECKS = {
    text="SMT-decided for every bit string of up to 24 bits (longest code: 22) and every discriminant of Core/Elements/Bitcoin: decode is total, a decoded jet re-encodes to exactly the consumed bits (so codes are injective and prefix-free), every jet's code decodes back to it with arbitrary trailing bits, every name parses back, and every Core jet behind the family prefix bit is an Elements jet with identical name and type names. Tables read from MIR are validated against the native encode/decode/Display/FromStr of all 1267 jets on every run. The clauses about the C tables and extern declarations are not applicable (see level_note).",
    design_ref="DESIGN.md §2 C14",
    note="NOT covered (not applicable to this technique): equality of roots/types/costs with libsimplicity's C tables and arity/types of extern declarations vs C prototypes - static texts across a language boundary, no input to quantify over, C not encodable. Trusted: bit-stream model of BitIter/BitWriter (checked on the real code under C13), rustc MIR, z3/cvc5"),
+
+ "C02": dict(
+   technique="bounded model checking of the real node decoder: Kani 0.68 -> CBMC 6.11 over #[kani::proof] harnesses, one per node class, bytes/length/position symbolic",
+   category="model_checking",
+   text="Layer 1 only: SAT-decided totality of bit_encoding::decode::decode_node (reached through the verif-hooks) - for every byte string after the class's code bits, every length and every position it never panics or overflows and every child reference points strictly backwards. Quick: classes without back references (iden/unit, fail + 64 entropy bytes, witness, hidden + CMR, jets); thorough adds the classes whose references go through the real read_natural. The program-level clauses of C02 (canonical order, sharing, hidden-node repetition, trailing bytes/padding, re-encoding equality) are NOT covered: the program-level decoder is out of CBMC's reach (DESIGN.md 1.4).",
+   design_ref="DESIGN.md §2 C01/C02",
+   note="trusted: Kani/CBMC; Word::from_bits replaced by a model; two-jet stand-in family; Merkle-root and precomputed-type stubs. Outside: everything above a single node; BitIter::close (C13)"),
+ "C10": dict(
+   technique="bounded model checking of the real value kernels and accessors: Kani 0.68 -> CBMC 6.11, values built from symbolic buffers at symbolic bit offsets through the verif-hooks",
+   category="model_checking",
+   text="Kernel level only: SAT-decided for every buffer content, bit offset 0..7 and (for copy_bits) every length/alignment: copy_bits, right_shift_1 and the product kernel place exactly the right bits and touch nothing else; for 8 type shapes (unequal sums with padding on either side, unit-heavy and nested products/sums, byte-boundary crossings) the padded width equals the definition, iter_padded yields exactly the value's bits, as_left/as_right/as_product answer by the tag and return parts of the right width at the right offset. The compact encoding, compact decoder and prune are NOT covered (their Vec worklists exhaust 62 GB under CBMC even for a 1-byte value).",
+   design_ref="DESIGN.md §2 C10/C11",
+   note="trusted: Kani/CBMC; Tmr::sum/product hash-consing stub; precomputed types rebuilt without the thread-local; Arc::drop_slow leaks. Outside: compact codec, prune, from_padded_bits beyond tiny types, wide words/buffer/context types"),
+ "C11": dict(
+   technique="bounded model checking of Value's PartialEq/Ord/Hash: Kani 0.68 -> CBMC 6.11 over pairs of values built from independent symbolic buffers and offsets; independent live-bit oracle",
+   category="model_checking",
+   text="Kernel level: SAT-decided for every pair of raw-parts values of the same type (4 shapes clean, 2 shapes dirty): == <=> same denoted element, cmp Equal <=> ==, antisymmetry, partial_cmp = Some(cmp), equal values feed identical bytes to any Hasher. Holds on clean buffers; on dirty buffers (sub-value extraction, machine output) the tree violates it: open known finding C11/eq-raw-bytes, reported as KNOWN-FINDING.",
+   design_ref="DESIGN.md §2 C10/C11, §4 S1",
+   note="trusted: as C10. Outside: histories needing the compact decoder or prune, transitivity over triples, other shapes"),
 }
 
 NOT_APPLICABLE = {
+ "C01": "whole-program encode/decode round trips walk Arc/Vec/HashMap structures with symbolic control that CBMC cannot execute in reach (a 2-bit Value's compact iterator exhausts 62 GB, DESIGN.md 1.4); node-level framing harnesses (kani-harness/src/c01.rs, `vcheck.py C01`) exist but did not finish within budget, so nothing is claimed",
+ "C05": "needs the Bit Machine on symbolic inputs: its Vec<CallStack>/Vec<Frame> loops and every Value operation fall in the class that exhausts memory under CBMC (measured); resource arithmetic is covered under C07, bit kernels under C10/C13",
+ "C09": "root computation over converted node forms (Node::convert, finalize, Hiding) walks Arc/Vec worklists out of CBMC's reach; distinct-structure => distinct-root is collision resistance of SHA-256",
+ "C12": "needs finalize_unpruned/prune/decode on programs with symbolic witnesses: type inference, Node::convert and Value are out of CBMC's reach (measured); a defect seen natively (ill-typed construction-time witness accepted, later panic) cannot be demonstrated by a check and is only recorded in DESIGN.md",
+ "C18": "the iterators keep their worklist in a Vec whose length depends on the (symbolic) graph: typed stores at symbolic offsets into byte-array heap objects make CBMC's formula explode - post-order over all 3-node DAGs did not finish in 15 min, pre-order in 10; a concrete graph would be enumeration of runs. Harnesses kept in kani-harness/src/c18.rs (`vcheck.py C18`)",
  "C03": "oracle is libsimplicity (C, behind FFI): cannot be encoded by Kani/CBMC here; Rust-only arithmetic feeding it is covered under C07/C19",
  "C04": "quantifier is over programs and construction orders only: inference state is a mutex-guarded slab of Arc/GhostCell union-find cells; symbolic program structure does not get past construction under CBMC, and concrete programs would be enumeration of runs, which this technique family excludes",
  "C06": "C evaluator and Elements environment are behind FFI; no jet can be executed under Kani",
